@@ -291,7 +291,17 @@ pub struct IoRun {
 // Generation
 // ---------------------------------------------------------------------------
 
-pub const OPEN_ERRNOS: [i32; 13] = [
+pub const OPEN_ERRNOS: [i32; 23] = [
+    libc::ETXTBSY,
+    libc::EBUSY,
+    libc::EOVERFLOW,
+    libc::ENXIO,
+    libc::EPERM,
+    libc::ENODEV,
+    libc::ESTALE,
+    libc::EWOULDBLOCK,
+    libc::EFBIG,
+    libc::EINVAL,
     libc::ENOENT,
     libc::EACCES,
     libc::EROFS,
@@ -308,7 +318,12 @@ pub const OPEN_ERRNOS: [i32; 13] = [
 ];
 /// errno values write(2) may legally fail with on a file: persistent ones and transient ones
 /// (a caller that retries a transient error must still end with an exact file or an Err).
-pub const WRITE_ERRNOS: [i32; 9] = [
+pub const WRITE_ERRNOS: [i32; 14] = [
+    libc::ESTALE,
+    libc::EINVAL,
+    libc::ENXIO,
+    libc::EROFS,
+    libc::EBUSY,
     libc::ENOSPC,
     libc::EDQUOT,
     libc::EFBIG,
@@ -326,6 +341,10 @@ pub fn pad_sizes() -> Vec<usize> {
     for n in 12..=20u32 {
         let p = 1usize << n;
         v.extend_from_slice(&[p - 1, p, p + 1]);
+    }
+    // above a megabyte (rarely drawn: see `gen_run`)
+    for p in [(1usize << 21) + 1, 3 * (1usize << 20) - 1] {
+        v.push(p);
     }
     for (k, c) in [(3usize, 4096usize), (5, 4096), (3, 8192), (5, 8192), (7, 8192), (3, 1024), (5, 1024), (3, 65536)] {
         v.extend_from_slice(&[k * c - 1, k * c, k * c + 1]);
@@ -474,10 +493,26 @@ fn gen_plan(rng: &mut Rng, sw: &Swarm) -> PlanSpec {
         }
         if !kinds.is_empty() {
             match *rng.pick(&kinds) {
-                0 => p.open.push((open_idx, OpenFault::Hard(*rng.pick(&OPEN_ERRNOS)))),
+                0 => {
+                    p.open.push((open_idx, OpenFault::Hard(*rng.pick(&OPEN_ERRNOS))));
+                    if rng.chance(1, 4) {
+                        // an implementation that tries again meets a second failure
+                        p.open.push((open_idx + 1, OpenFault::Hard(*rng.pick(&OPEN_ERRNOS))));
+                        if rng.chance(1, 2) {
+                            p.open.push((open_idx + 2, OpenFault::Hard(*rng.pick(&OPEN_ERRNOS))));
+                        }
+                    }
+                }
                 1 => {
                     let idx = free_write_idx(rng, &p, span);
                     p.write.push((idx, WriteFault::Hard(*rng.pick(&WRITE_ERRNOS))));
+                    if rng.chance(1, 4) {
+                        for k in 1..=rng.range(1, 2) as u32 {
+                            if !p.write.iter().any(|(i, _)| *i == idx + k) {
+                                p.write.push((idx + k, WriteFault::Hard(*rng.pick(&WRITE_ERRNOS))));
+                            }
+                        }
+                    }
                 }
                 2 => {
                     let idx = free_write_idx(rng, &p, span);
